@@ -220,9 +220,25 @@ func Execute(t *testing.T, cfg *RunConfig) *Outcome {
 	defer setCurrent(nil)
 	out := &Outcome{Cfg: cfg, NamedItem: -1, Stream: st, CallsAtReturn: -1}
 	var car *carrier
+	// earlier calls made on the very carrier object (a file or an in-memory
+	// reader that is simply used again): their bytes come first in it
+	var prefix []byte
+	sameCarrier := map[int]bool{}
+	if cfg.Carrier == "bytes" || cfg.Carrier == "file" {
+		for pi, pre := range cfg.Prelude {
+			if pre.SameSource && (pre.Fault.Kind == "" || pre.Fault.Kind == "none") {
+				pc := RunConfig{Workflow: pre.Workflow, NumByte: pre.NumByte}
+				pst := BuildStream(pre.Stream, pc.Required())
+				if pst.Len() >= 0 {
+					prefix = append(prefix, pst.data[:pc.Required()]...)
+					sameCarrier[pi] = true
+				}
+			}
+		}
+	}
 	if cfg.Carrier != "" {
 		var cerr error
-		car, cerr = buildCarrier(cfg, st, src)
+		car, cerr = buildCarrier(cfg, st, src, prefix)
 		if cerr != nil {
 			t.Fatalf("carrier %s: %v", cfg.Carrier, cerr)
 		}
@@ -250,7 +266,13 @@ func Execute(t *testing.T, cfg *RunConfig) *Outcome {
 		}
 	}
 	body := func() {
-		for _, pre := range cfg.Prelude {
+		for pi, pre := range cfg.Prelude {
+			if sameCarrier[pi] && car != nil {
+				rs.setPrelude(true)
+				callWorkflow(pre.Workflow, car.src, pre.NumByte)
+				rs.setPrelude(false)
+				continue
+			}
 			pc := RunConfig{Workflow: pre.Workflow, NumByte: pre.NumByte, Stream: pre.Stream, Chunk: ChunkSpec{Kind: "full"}, Fault: pre.Fault}
 			if pc.Fault.Kind == "" {
 				pc.Fault.Kind = "none"
